@@ -184,6 +184,15 @@ class PDFGraphicState:
         )
 
 
+GraphicsStackEntry = Tuple[
+    Matrix,
+    PDFTextState,
+    PDFGraphicState,
+    Optional[PDFColorSpace],
+    Optional[PDFColorSpace],
+]
+
+
 class PDFResourceManager:
     """Repository of shared resources.
 
@@ -464,7 +473,7 @@ class PDFPageInterpreter:
     def init_state(self, ctm: Matrix) -> None:
         """Initialize the text and graphic states for rendering a page."""
         # gstack: stack for graphical states.
-        self.gstack: List[Tuple[Matrix, PDFTextState, PDFGraphicState]] = []
+        self.gstack: List[GraphicsStackEntry] = []
         self.ctm = ctm
         self.device.set_ctm(self.ctm)
         self.textstate = PDFTextState()
@@ -500,14 +509,19 @@ class PDFPageInterpreter:
         self.argstack = self.argstack[:-n]
         return x
 
-    def get_current_state(self) -> Tuple[Matrix, PDFTextState, PDFGraphicState]:
-        return (self.ctm, self.textstate.copy(), self.graphicstate.copy())
+    def get_current_state(self) -> GraphicsStackEntry:
+        # The current colour spaces are graphics state parameters too
+        # (PDF 32000-1, table 52): q saves them and Q restores them.
+        return (
+            self.ctm,
+            self.textstate.copy(),
+            self.graphicstate.copy(),
+            self.scs,
+            self.ncs,
+        )
 
-    def set_current_state(
-        self,
-        state: Tuple[Matrix, PDFTextState, PDFGraphicState],
-    ) -> None:
-        (self.ctm, self.textstate, self.graphicstate) = state
+    def set_current_state(self, state: GraphicsStackEntry) -> None:
+        (self.ctm, self.textstate, self.graphicstate, self.scs, self.ncs) = state
         self.device.set_ctm(self.ctm)
 
     def do_q(self) -> None:
